@@ -70,21 +70,19 @@ Proof.
     destruct (find_row r (l_rows l)); cbn [r_custom_format r_s]; destruct (i =? 0); reflexivity.
 Qed.
 
-(* columns: outside the C29 defect class the descriptor carries the index, and cells of the
-   column without a style of their own, in rows without custom_format, read it *)
+(* columns: the descriptor carries the index, and cells of the column without a style of their
+   own, in rows without custom_format, read it *)
 Theorem set_column_style_layer down up (up_down : forall w, up (down w) = w) l c i l' :
-  wf (l_cols l) -> defect_cop up (l_cols l) (SetStyle c i) = false ->
   layer_set_column_style down up l c i = Ok l' ->
   style_at (l_cols l') c = Some i /\
   forall r, cell_style r c (l_cells l') = None ->
     (match find_row r (l_rows l') with Some x => r_custom_format x = false | None => True end) ->
     get_cell_style_index l' r c = i.
 Proof.
-  intros Hwf Hd. unfold layer_set_column_style.
+  unfold layer_set_column_style.
   destruct (Cols.set_column_style down up (l_cols l) c i) as [cs| |] eqn:E; try discriminate.
   intro H. injection H as <-. cbn [l_rows l_cells l_cols].
-  pose proof (cols_readback down up up_down (l_cols l) (SetStyle c i) cs Hwf Hd E) as Hr.
-  cbn [cop_attr cop_col cop_val get] in Hr. injection Hr as Hr.
+  pose proof (set_style_same down up up_down (l_cols l) c i cs E) as (Hr & _).
   split; [exact Hr|]. intros r Hc Hrow.
   unfold get_cell_style_index, row_column_style. cbn [l_cells l_rows l_cols]. rewrite Hc.
   unfold style_at in Hr.
